@@ -113,10 +113,12 @@ func newC38Stacks(ctx context.Context, r *vkit.Run) (*c38Stacks, error) {
 		o.BaseEndpoint = aws.String("http://" + c38Endpoint + ":" + port)
 		o.RetryMaxAttempts = 1
 	})
-	if st.a, err = s3client.NewStorage(client); err != nil {
+	inner, err := s3client.NewStorage(client)
+	if err != nil {
 		st.close(ctx)
 		return nil, err
 	}
+	st.a = &panicGuard{Storage: inner}
 	if err = st.a.Start(ctx); err != nil {
 		st.close(ctx)
 		return nil, err
@@ -235,12 +237,9 @@ func (ms maskSet) apply(op *vmodel.Op) bool {
 			op.ContentType = nil
 		}
 	}
-	if ms[k+":content-type"] {
-		op.ContentType = nil
-		if op.Kind == vmodel.OpCopy {
-			op.ReplaceMeta = false
-			op.Meta = nil
-		}
+	if ms[k+":content-type"] && op.ContentType == nil && (op.Kind != vmodel.OpCopy || op.ReplaceMeta) {
+		// the divergence is about requests WITHOUT a content type: always send one
+		op.ContentType = vkit.Ptr("application/octet-stream")
 	}
 	if ms[k+":storage-class"] {
 		op.Class = nil
@@ -334,6 +333,14 @@ func ptrStr(p *string) string {
 // learns the pairing of fresh ids.
 func (h *c38History) cmpVersionID(op *vmodel.Op, what string, a, b *string) {
 	sig := fmt.Sprintf("s3client-diverges:%s:%s", op.Kind, what)
+	// "no version id" and the null version are the same thing on the wire
+	// (x-amz-version-id is omitted for the null version)
+	if a != nil && *a == "null" {
+		a = nil
+	}
+	if b != nil && *b == "null" {
+		b = nil
+	}
 	switch {
 	case a == nil && b == nil:
 	case a == nil || b == nil:
@@ -620,7 +627,11 @@ func (h *c38History) probes(rng *vkit.Rand, m *vmodel.Model, final bool) {
 	for _, n := range h.prof.Buckets {
 		keep[n] = true
 	}
-	snapA := restrictTo(vmodel.Snapshot(h.ctx, h.st.a, vmodel.SnapOptions{}), keep)
+	snapA := restrictTo(vmodel.Snapshot(h.ctx, &uploadListFallback{Storage: h.st.a, direct: h.st.a0, r: h.r}, vmodel.SnapOptions{}), keep)
+	if snapA.Err != "" {
+		h.add("s3client-diverges:snapshot:"+strings.SplitN(snapA.Err, ":", 2)[0], "snapshot through the S3 client failed: "+snapA.Err, false, "")
+		return
+	}
 	snap0 := restrictTo(vmodel.Snapshot(h.ctx, h.st.a0, vmodel.SnapOptions{}), keep)
 	snapB := restrictTo(vmodel.Snapshot(h.ctx, h.st.b, vmodel.SnapOptions{}), keep)
 	h.r.Count("snapshots_compared", 1)
@@ -677,11 +688,35 @@ func (h *c38History) probes(rng *vkit.Rand, m *vmodel.Model, final bool) {
 	}
 }
 
+// uploadListFallback lets the whole-state snapshot through the S3 client go on
+// when its ListMultipartUploads panics (reported separately): the listing is
+// then taken from the backing storage.
+type uploadListFallback struct {
+	storage.Storage
+	direct storage.Storage
+	r      *vkit.Run
+}
+
+func (u *uploadListFallback) ListMultipartUploads(ctx context.Context, b storage.BucketName, o storage.ListMultipartUploadsOptions) (*storage.ListMultipartUploadsResult, error) {
+	res, err := u.Storage.ListMultipartUploads(ctx, b, o)
+	if err != nil && strictKind(err) == "panic" {
+		u.r.Count("snapshot_upload_listings_taken_from_backing_storage(client panicked)", 1)
+		return u.direct.ListMultipartUploads(ctx, b, o)
+	}
+	return res, err
+}
+
 // excluded operations (answered with ErrNotImplemented by design)
 func (h *c38History) excludeByDesign(op *vmodel.Op) {
 	if op.Kind == vmodel.OpCopy && op.Range != nil {
 		op.Range = nil
 		h.r.Count("excluded_by_design:copy-with-range(range stripped)", 1)
+	}
+	if op.Kind == vmodel.OpCopy && op.SrcBucket == op.Bucket && op.SrcKey == op.Key && !op.ReplaceMeta && op.Class == nil {
+		// the S3 protocol layer rejects a self copy that changes nothing (InvalidRequest);
+		// give it a storage class so that it is a legal request on both stacks
+		op.Class = vkit.Ptr("STANDARD")
+		h.r.Count("excluded_by_protocol:no-op-self-copy(storage class added)", 1)
 	}
 	if op.Kind == vmodel.OpTransition && op.VersionID != nil {
 		op.VersionID = nil
@@ -851,7 +886,7 @@ func runC38(tier, replay string) {
 	}
 	defer st.close(ctx)
 	r.SetExtra("excluded_operations", []string{"append (ErrNotImplemented by design)", "copy with byte range (ErrNotImplemented by design)", "transition by version id (ErrNotImplemented by design)"})
-	nh, steps := r.N(15, 300), r.N(40, 60)
+	nh, steps := r.N(24, 300), r.N(50, 70)
 	masks := maskSet{}
 	only := -1
 	if replay != "" {
@@ -864,6 +899,8 @@ func runC38(tier, replay string) {
 		}
 	}
 	base := r.Rand()
+	reported := map[string]bool{}
+	examples := map[string]string{}
 	for i := 0; i < nh || (only >= 0 && i <= only); i++ {
 		if only >= 0 && i != only {
 			continue
@@ -883,7 +920,14 @@ func runC38(tier, replay string) {
 		for _, d := range h.divs {
 			ww := w
 			ww.Divs = []c38Div{d}
-			r.Violation(d.Sig, d.What, ww)
+			r.Count("divergence:"+d.Sig, 1)
+			if _, ok := examples[d.Sig]; !ok {
+				examples[d.Sig] = d.What
+			}
+			if !reported[d.Sig] || replay != "" {
+				reported[d.Sig] = true
+				r.Violation(d.Sig, d.What, ww)
+			}
 			if d.Mask != "" && replay == "" {
 				if !masks[d.Mask] {
 					r.Seen("masks", d.Mask+" (because of "+d.Sig+")")
@@ -896,6 +940,7 @@ func runC38(tier, replay string) {
 		}
 	}
 	finishReplay(r, replay)
+	r.SetExtra("divergence_examples", examples)
 	if replay == "" {
 		if r.Counter("steps") == 0 || r.Counter("write_results_compared") == 0 || r.Counter("read_views_compared(keys)") == 0 {
 			r.Inconclusive("no operation compared")
